@@ -50,6 +50,41 @@ func c12(c *Ctx) {
 		c.noSuccessBefore(rec, calls(rec, clientList), gone, load.FuncName(rec)+": success only after List", "every success return lies behind the List of the Composition's revisions (or the Composition is being deleted)", "Reconcile can return success without listing the Composition's revisions: the history is not examined")
 	}
 
+	c.R.Rule("R12.8", "the content hash covers the whole spec, the labels and the annotations", 3,
+		"two different contents with one hash are taken for the same revision: an edit is never cut into a new revision (or a revert is not recognised)")
+	if hf := c.P.Method("apis/apiextensions/v1", "Composition", "Hash"); hf != nil {
+		c.mech(hf)
+		var written []ssa.Value
+		for _, x := range cfgx.Calls(hf, nil) {
+			if n := cfgx.CalleeName(x); strings.HasSuffix(n, ".Write") || strings.HasSuffix(n, "sha256.Sum256") {
+				written = append(written, cfgx.CallArgs(x)...)
+			}
+		}
+		for _, want := range []string{"Spec", "Labels", "Annotations"} {
+			got := false
+			for _, wv := range written {
+				flow.Default.Any(wv, func(v ssa.Value) bool {
+					ci, ok := v.(*ssa.Call)
+					if !ok || !strings.HasSuffix(cfgx.CalleeName(ci), "yaml.Marshal") {
+						return false
+					}
+					// the argument is the whole field <want> of the receiver
+					a := ci.Call.Args[0]
+					if mi, ok := a.(*ssa.MakeInterface); ok {
+						a = mi.X
+					}
+					if ld, ok := a.(*ssa.UnOp); ok {
+						if fa, ok := ld.X.(*ssa.FieldAddr); ok && fieldName(fa.X.Type(), fa.Field) == want && flow.Root(fa.X) == ssa.Value(hf.Params[0]) {
+							got = true
+						}
+					}
+					return false
+				})
+			}
+			c.R.Check(got, load.FuncName(hf)+": hashes "+want, c.pos(hf.Pos()), "the marshalled "+want+" of the Composition is written to the hash, whole", "the Composition's "+want+" is not (wholly) part of the hashed content")
+		}
+	}
+
 	c.R.Rule("R12.7", "the generated Composition ⇄ revision spec converters carry every shared field", 20,
 		"a revision would not be a faithful copy of the Composition content it was cut from (or a Composition rebuilt from a revision would differ)")
 	convertersComplete(c, "that part of the Composition never reaches its revisions", "apis/apiextensions/v1")
